@@ -227,6 +227,7 @@ def main(argv, PROPS, JOBS):
 def _run(pid, tier, seed, prop, JOBS, root, t0):
     names = prop["quick"] if tier == "quick" else prop.get("thorough", prop["quick"])
     jobs = []
+    names = list(dict.fromkeys(names))          # a job listed twice would share its scratch directory
     for n in names:
         if n not in JOBS:
             raise SystemExit("unknown job " + n)
@@ -424,6 +425,9 @@ def write_evidence(pid, tier, seed, prop, results, total, discharged, wall, nvio
           "wall_s": round(wall, 1), "violations": nviol}
     os.makedirs(os.path.join(VERIF, "evidence"), exist_ok=True)
     json.dump(ev, open(os.path.join(VERIF, "evidence", pid + ".json"), "w"), indent=1)
+    if tier == "thorough":      # kept next to the per-run file, which the next quick run overwrites
+        os.makedirs(os.path.join(VERIF, "evidence", "thorough"), exist_ok=True)
+        json.dump(ev, open(os.path.join(VERIF, "evidence", "thorough", pid + ".json"), "w"), indent=1)
 
 
 def replay_file(path, PROPS, JOBS):
